@@ -49,6 +49,18 @@
 (*   FixValidToInvalid    config.go:189-194: valid -> invalid config emits *)
 (*                        a config event and the processor keeps running;  *)
 (*                        the repair emits a remove event instead          *)
+(*                                                                         *)
+(* Identity of a service across the layers: the store keys its table by    *)
+(* the discovery name, the events carry that name, proc.New hands it to    *)
+(* the builder (BuildParams.Name), and the controller keys its table by    *)
+(* what the PROCESSOR reports (addProc/removeProc use proc.Name(),          *)
+(* controller.go:119-137) while it looks entries up by the event's name    *)
+(* (getProc(svcName)).  Names may contain characters a lower layer treats  *)
+(* specially ('.' is the stats scope separator, proc.go:102).              *)
+(*   ProcRewritesName     FALSE: the processor reports the name it was     *)
+(*                        given (the code); TRUE: the processor layer      *)
+(*                        normalises it ('.' -> '_'), a variant that must  *)
+(*                        violate Converged                                *)
 (***************************************************************************)
 EXTENDS Naturals, Sequences, FiniteSets, TLC
 
@@ -59,6 +71,7 @@ CONSTANTS Svcs,        \* service names (strings)
           Cap,         \* capacity of the event channel
           Perms,       \* TRUE: added/removed lists in every order; FALSE: canonical order only
           FixRemovalsOnly, FixSameAddr, FixInvalidCorrected, FixValidToInvalid,
+          ProcRewritesName,
           AvoidWindows \* TRUE: the environment never delivers an update of an input class (W_* below) whose defect
                        \* is not repaired - "the rest of the property" when a defect is recorded instead of repaired
 
@@ -73,6 +86,13 @@ Valid(c) == c \in {"v1", "v2"}
 Blank == "-"
 
 Range(f) == {f[x] : x \in DOMAIN f}
+
+\* what the stats layer does to a name (strings.Replace(name, ".", "_", -1)), for the names of the alphabet used
+Rewrite(s) == CASE s = "a.b" -> "a_b" [] s = "A.b" -> "A_b" [] OTHER -> s
+\* the name the processor built for service s reports
+PName(s) == IF ProcRewritesName THEN Rewrite(s) ELSE s
+\* keys the controller's table can ever hold
+Keys == Svcs \cup {Rewrite(s) : s \in Svcs}
 Max(S) == CHOOSE x \in S : \A y \in S : y <= x
 
 \* duplicate-free lists over the addresses; canonical = increasing position in AddrSeq
@@ -219,9 +239,9 @@ EndpointUpdate(s, addL, remL) ==
 
 Handle(e, p, t) ==
   CASE e.t = "add" ->                                                    \* handleSvcAdd + tryEnsureProc
-         IF p[e.s].on \/ ~Valid(e.cfg) THEN p
-         ELSE [p EXCEPT ![e.s] = [on |-> TRUE, cfg |-> e.cfg, hosts |-> Range(View(e, t))]]
-    [] e.t = "remove" -> [p EXCEPT ![e.s] = NoProc]                      \* handleSvcDel: Stop, removeProc
+         IF p[e.s].on \/ ~Valid(e.cfg) THEN p                            \* looked up by the event's name ...
+         ELSE [p EXCEPT ![PName(e.s)] = [on |-> TRUE, cfg |-> e.cfg, hosts |-> Range(View(e, t))]]  \* ... stored by proc.Name()
+    [] e.t = "remove" -> [p EXCEPT ![e.s] = NoProc]                      \* handleSvcDel: getProc(name), Stop, removeProc
     [] e.t = "config" ->                                                 \* handleSvcConfigUpdate; the processor
          IF p[e.s].on /\ Valid(e.cfg) THEN [p EXCEPT ![e.s].cfg = e.cfg] \* rejects an invalid config (redis.go:144-150)
          ELSE p
@@ -272,7 +292,7 @@ InitWith(St) ==
   /\ tab = [s \in Svcs |-> IF s \in Range(St) THEN StaticSw ELSE NoSw]
   /\ chan = [i \in 1..Len(St) |-> AddEvtOf(St[i], StaticSw)]
   /\ pend = <<>>
-  /\ procs = [s \in Svcs |-> NoProc]
+  /\ procs = [k \in Keys |-> NoProc]
   /\ nupd = 0
 
 \* bootstrap order of the static services (the configurations use at most one)
@@ -301,8 +321,9 @@ TypeOK ==
        /\ tab[s].n \in 0..Len(tab[s].arr)
        /\ \A i \in 1..tab[s].n : tab[s].arr[i] \in Addrs
        /\ tab[s].nil => tab[s].n = 0
-       /\ procs[s].on \in BOOLEAN /\ procs[s].hosts \subseteq Addrs
-       /\ procs[s].on => Valid(procs[s].cfg)
+  /\ \A k \in Keys :
+       /\ procs[k].on \in BOOLEAN /\ procs[k].hosts \subseteq Addrs
+       /\ procs[k].on => Valid(procs[k].cfg)
   /\ Len(chan) <= Cap
   /\ pend # <<>> => Len(chan) = Cap
   /\ nupd \in 0..H
@@ -317,8 +338,9 @@ ViewsReadable == \A i \in 1..Len(chan) : chan[i].t = "add" /\ chan[i].live =>
 
 Quiescent == chan = <<>> /\ pend = <<>>
 
-Wanted(s) == tab[s].in /\ Valid(tab[s].cfg) /\ ~tab[s].nil
+Wanted(s) == s \in Svcs /\ tab[s].in /\ Valid(tab[s].cfg) /\ ~tab[s].nil
 
+\* s ranges over the keys of the controller's table: a processor registered under a name that is no service is not wanted
 ConvergedSvc(s) ==
   /\ procs[s].on <=> Wanted(s)
   /\ Wanted(s) => /\ procs[s].cfg = tab[s].cfg
@@ -326,7 +348,7 @@ ConvergedSvc(s) ==
 
 \* C08: once pending events are processed there is exactly one processor for each service with a valid
 \* configuration and an endpoint list, none for any other, each with the latest configuration and endpoint set
-Converged == Quiescent => \A s \in Svcs : ConvergedSvc(s)
+Converged == Quiescent => \A s \in Keys : ConvergedSvc(s)
 
 \* C08, second sentence: an update for a service that is not (or no longer) in the table changes nothing
 UnknownStep ==
